@@ -39,14 +39,6 @@ def SetConcept (t : Table) (A B : List Nat) : Prop :=
   (∀ g, g ∈ A ↔ (g < t.height ∧ ∀ a ∈ B, t.get g a = true)) ∧
   (∀ a, a ∈ B ↔ (a < t.width ∧ ∀ g ∈ A, t.get g a = true))
 
-/-- upper covers of element `i` within a list of extents (= lower covers for the reversed order) -/
-def upperCovers (exts : List (List Nat)) (i : Nat) : List Nat :=
-  let ei := exts.getD i []
-  (List.range exts.length).filter fun j =>
-    let ej := exts.getD j []
-    ssubset ei ej && !((List.range exts.length).any fun k =>
-      let ek := exts.getD k []
-      ssubset ei ek && ssubset ek ej)
 
 /-- lower covers in the order monotone concepts compare by (`c ≤ d` iff `extent d ⊆ extent c`):
     `j` is strictly below `i` iff `extent i ⊊ extent j`. -/
